@@ -16,7 +16,7 @@ RULE = ("cases from rng(seed, 4, 0, i): connected-per-cluster graphs of R^2 and/
         "cond up to 1e6, measurement noise 10^U(-3,1); optimize() with default arguments or random tol in 10^U(-10,-2), max_iter in 1..20; every 3rd case then edits the problem in place (information replaced / scaled in place, measurement, a vertex, a fixed flag) and re-optimizes the same graph object. "
         "distinct = spec fingerprint; non-trivial = some free vertex is displaced by more than 1e-3 from the optimum initially and cond(H)<=1e10.")
 REQ = ["eval:optimum-reached", "eval:final-chi2-at-optimum", "class:landmark_edges", "class:parallel_edges", "class:far_initial_guess", "class:mixed_dimensions",
-       "class:illconditioned_information", "class:shared_pose_storage", "class:reoptimised_after_edits", "eval:optimum-reached-after-edits", "class:information_scales:per_edge", "class:information_scales:all_tiny", "class:edges_prebound_to_stale_vertices"]
+       "class:illconditioned_information", "class:shared_pose_storage", "class:reoptimised_after_edits", "eval:optimum-reached-after-edits", "class:information_scales:per_edge", "class:information_scales:all_tiny", "class:edges_prebound_to_stale_vertices", "class:information_sparse:zero_rows_and_blocks", "class:information_sparse:offdiagonals_cancel_in_sum", "class:second_live_graph_over_the_same_objects"]
 PLAN = {
     "quick": {"cases": 1600, "soft_s": 60, "min_nontrivial": 400, "require": REQ},
     "thorough": {"cases": 80000, "soft_s": 1100, "min_nontrivial": 10000, "require": REQ},
@@ -33,6 +33,10 @@ def run_case(ctx, i, rng):
     spec, labels = gen.cluster_graph(rng, kinds=kinds, size=(2, max(2, nmax)), noise_t=noise, init_t=far, cond=cond, custom=False, scale=float(10 ** rng.uniform(0, 3)), alias=bool(rng.random() < 0.25), wide_info=bool(rng.random() < 0.3))
     if far > 1e3:
         labels.add("far_initial_guess")
+    if rng.random() < 0.12:
+        # partial information: unconstrained axes (zero rows), independent axes, small dense blocks, off-diagonals that cancel in sum
+        for lab in gen.sparsify_information(rng, spec["edges"]):
+            labels.add("information_sparse:" + lab)
     if cond > 1e3:
         labels.add("illconditioned_information")
     default_args = rng.random() < 0.4
@@ -42,6 +46,15 @@ def run_case(ctx, i, rng):
     g = M.build(spec)
     if not ctx.check("edges-linked-to-the-listed-vertices", M.edges_linked_to_graph(g), {"prebound": bool(spec.get("prebind_stale"))}, None, {"graph": {k: v for k, v in spec.items() if k != "truth_by_id"}}):
         return
+    if rng.random() < 0.15 and not spec.get("prebind_stale"):
+        # a second live graph over the same vertex and edge objects, listed in another order (a viewer, a sub-solver): constructing it must not
+        # disturb the first graph
+        pv, pe = rng.permutation(len(g._vertices)), rng.permutation(len(g._edges))
+        first_v = g._vertices[0]
+        pv = [int(j) for j in pv]
+        g_second = M.Graph([g._edges[int(j)] for j in pe], [g._vertices[j] for j in pv])
+        labels.add("second_live_graph_over_the_same_objects")
+        case_extra = {"second_graph_vertex_order": pv}
     if ffp:
         g._vertices[0].fixed = True
     x0 = M.snapshot_poses(g)
